@@ -51,10 +51,17 @@ def run_script(impl, cfg, script, nslots, seed=0, preempt=False):
             elif k == 'upgrade':
                 w.ws_request('transport=websocket&EIO=4&sid=' + sid_of(w, op['s']), slot=op['s'])
             elif k == 'wsframe':
-                w.ws_frame(op['s'], frame_raw(op['f'], w.cfg['max_buf']))
+                raw = frame_raw(op['f'], w.cfg['max_buf'])
+                w.ws_frame(op['s'], raw)
+                # with a very small limit even a protocol frame ('2probe') is oversize
+                a = {'s': op['s'], 'f': 'OVERSIZE' if len(raw) > w.cfg['max_buf'] else op['f']}
             elif k == 'wsframes':
+                fs = []
                 for f in op['fs']:
-                    w.ws_frame(op['s'], frame_raw(f, w.cfg['max_buf']))
+                    raw = frame_raw(f, w.cfg['max_buf'])
+                    w.ws_frame(op['s'], raw)
+                    fs.append('OVERSIZE' if len(raw) > w.cfg['max_buf'] else f)
+                a = {'s': op['s'], 'fs': fs}
             elif k == 'wsdrop':
                 w.ws_drop(op['s'])
             elif k == 'anyreq':
